@@ -1,9 +1,13 @@
 (* C15 — RTO estimate follows RFC 6298 with Karn's rule and goes stale after 10 minutes. Statements only.
-   The implementation computes in f32 (Duration::mul_f32); the property itself states the tolerance (1e-5 relative + 1 us)
-   within which the monitor Monitors.mon_C15 compares the RTO read from the hook with this reference on every history. *)
+   Two layers: (1) the SPECIFICATION: RFC 6298 in exact fixed point (Monitors.rfc6298_update, rfc6298_rto), against which the monitor
+   Monitors.mon_C15 judges the interval the implementation used, within the tolerance of the property (1e-5 relative + 1 us:
+   the implementation computes in f32); (2) the exact MODEL of the implementation's estimator (Agent/F32.v: binary32
+   round-to-nearest-even, Duration::as_secs_f32 / from_secs_f32; Agent/RttExact.v: which calls feed it), whose state (rto,
+   srtt, rttvar, instant of the last request) is compared with the hook snapshot to the nanosecond after every operation
+   of the agent suite, and which supplies the interval of every request of the client model. *)
 From Coq Require Import List NArith Bool.
 Import ListNotations.
-From Rustun Require Import Agent.Rto Agent.Model Agent.Monitors Proofs.RttProofs.
+From Rustun Require Import Agent.Rto Agent.Model Agent.Monitors Proofs.RttProofs Agent.F32 Agent.RttExact Proofs.RttExactProofs.
 Open Scope N_scope.
 
 Theorem C15_first_sample : forall r, rfc6298_update None r = Some (r, r / 2).
@@ -29,3 +33,35 @@ Example C15_example :
   let c := {| cc_mech := 0; cc_fp := false; cc_reliable := false; cc_rto := 500000000; cc_gran := 1000000 |} in
   rfc6298_rto c (rfc6298_update (rfc6298_update None (fx 100000000)) (fx 40000000)) = fx 302500000.
 Proof. vm_compute. reflexivity. Qed.
+
+(* ---- the exact estimator model *)
+(* first sample: SRTT = R, RTTVAR = R/2, RTO = SRTT + max(G, 4 RTTVAR), in integer nanoseconds, not rounded up to a second *)
+Theorem C15_exact_first_sample : forall s r, rc_srtt s = 0 ->
+  rtt_update s r = {| rc_rto := r + N.max (rc_gran s) (r / 2 * 4); rc_srtt := r; rc_rttvar := r / 2; rc_gran := rc_gran s; rc_conf := rc_conf s |}.
+Proof. exact RttExactProofs.first_sample_exact. Qed.
+(* later samples: RTTVAR from the OLD SRTT, then SRTT, each product through Duration::mul_f32 *)
+Theorem C15_exact_later_sample : forall s r, rc_srtt s <> 0 ->
+  let rttvar := mul_f32 (rc_rttvar s) c_075 + mul_f32 (absdiffN (rc_srtt s) r) c_025 in
+  let srtt := mul_f32 (rc_srtt s) c_0875 + mul_f32 r c_0125 in
+  rtt_update s r = {| rc_rto := srtt + N.max (rc_gran s) (mul_f32 rttvar c_4); rc_srtt := srtt; rc_rttvar := rttvar; rc_gran := rc_gran s; rc_conf := rc_conf s |}.
+Proof. exact RttExactProofs.later_sample_exact. Qed.
+(* it starts at the configured value, returns to it when MORE than ten minutes pass between consecutive requests, keeps
+   the estimate otherwise *)
+Theorem C15_exact_initial : forall rto gran now, est_rto_for_send (est0 rto gran) now = rto.
+Proof. exact RttExactProofs.initial_rto. Qed.
+Theorem C15_exact_stale : forall s l now, e_last s = Some l -> 600000000000 < now - l -> est_rto_for_send s now = rc_conf (e_calc s).
+Proof. exact RttExactProofs.stale_resets. Qed.
+Theorem C15_exact_not_stale : forall s l now, e_last s = Some l -> now - l <= 600000000000 -> est_rto_for_send s now = rc_rto (e_calc s).
+Proof. exact RttExactProofs.fresh_keeps. Qed.
+(* Karn: no sample from a retransmitted request, from timer calls or refused sends *)
+Theorem C15_exact_karn : forall s c now d m id x, (forall e, In e [Received m] -> final_of e = Some id) ->
+  find_txn id (T c) = Some x -> inst x = None -> est_step s c (Recv now d m) (ROk None) [Received m] = s.
+Proof. exact RttExactProofs.karn_no_sample. Qed.
+Print Assumptions C15_exact_later_sample.
+Print Assumptions C15_exact_stale.
+Print Assumptions C15_exact_karn.
+(* the f32 arithmetic is visible: the RFC numbers 92.5 / 52.5 / 302.5 ms come out 8 ns off *)
+Example C15_exact_example :
+  let s := rtt_update (rtt_update (rtt_new 500000000 1000000) 100000000) 40000000 in
+  (rc_srtt s, rc_rttvar s, rc_rto s) = (92499999, 52500001, 302499992).
+Proof. exact RttExactProofs.rfc6298_numbers_f32. Qed.
